@@ -67,8 +67,9 @@ pub fn scenario_cfg(seed: u64, shard: usize, name: &str) -> UniverseCfg {
         budget,
         wipeable,
         // generous lease: expiry happens only where the scenario forces it
-        lease_ttl_ms: 3_000,
-        node_timeout_ms: rng.gen_range(40..=60),
+        lease_ttl_ms: 8_000,
+        // wide enough that scheduling hiccups on a loaded machine do not look like faults
+        node_timeout_ms: rng.gen_range(120..=200),
         retry_delay_ms: 10,
         retry_jitter_ms: 5,
         max_attempts: 2,
@@ -204,6 +205,27 @@ impl Stage {
         self.note("gossip", json!({"replica": r, "next_height": next}));
     }
 
+    fn counter(&self, key: &str) -> u64 {
+        self.u.shared.counters.lock().unwrap_or_else(|e| e.into_inner()).get(key).copied().unwrap_or(0)
+    }
+
+    fn stream_heights(&self, k: usize) -> Vec<u32> {
+        let g = self.u.shared.nodes[k].inner.lock().unwrap_or_else(|e| e.into_inner());
+        match g.db.peek_stream(&self.u.shared.keys.stream) {
+            None => Vec::new(),
+            Some(s) => s
+                .entries
+                .iter()
+                .filter_map(|e| {
+                    e.fields
+                        .chunks(2)
+                        .find(|p| p.len() == 2 && &*p[0] == b"height")
+                        .and_then(|p| std::str::from_utf8(&p[1]).ok()?.parse::<u32>().ok())
+                })
+                .collect(),
+        }
+    }
+
     fn stream_len(&self, k: usize) -> usize {
         let g = self.u.shared.nodes[k].inner.lock().unwrap_or_else(|e| e.into_inner());
         g.db.peek_stream(&self.u.shared.keys.stream).map(|s| s.entries.len()).unwrap_or(0)
@@ -267,8 +289,14 @@ fn reorder_then_lagging_view(s: &mut Stage, rng: &mut impl Rng) -> bool {
     // the client, executed late by the node)
     let u = s.u.clone();
     let before_len_x = s.stream_len(x);
+    let delayed_before = s.counter("fault.delayed_request");
     let out = s.step(l1, &mut || u.shared.links[l1][x].set_mode(delay_scripts(delay)));
     if !matches!(out, StepOutcome::Published(hh, _) if hh == h) {
+        return false;
+    }
+    // the publish returns as soon as a quorum answered: make sure X's write has
+    // actually been sent (and is being held back) before the link turns fast again
+    if !s.wait_for("write of h to X is in flight", 500, |st| st.counter("fault.delayed_request") > delayed_before) {
         return false;
     }
     // height h+1: X is fast again, the Z nodes are unreachable for the leader
@@ -279,7 +307,14 @@ fn reorder_then_lagging_view(s: &mut Stage, rng: &mut impl Rng) -> bool {
         return false;
     }
     // wait until the late write of height h has landed on X (after h+1)
-    if !s.wait_for("late write of h lands on X", 3_000, |st| st.stream_len(x) >= before_len_x + 2) {
+    let _ = before_len_x;
+    if !s.wait_for("late write of h lands on X after h+1", 3_000, |st| {
+        let hs = st.stream_heights(x);
+        match (hs.iter().position(|v| *v == h), hs.iter().position(|v| *v == h + 1)) {
+            (Some(ph), Some(ph1)) => ph > ph1,
+            _ => false,
+        }
+    }) {
         return false;
     }
     // the leader is cut off, all leases expire, replica 2 knows the chain up to h and
